@@ -48,7 +48,7 @@ SPEC = dict(
          '(~0.7e3 queries each; half of them exact-regime requests built from dyadic values) to evaluations and their own cells '
          '(width, generator, branch, direction, exact or random regime) to distinct_nontrivial.',
     exhaustive={'quick': None, 'thorough': None},
-    require=['round-number-requests', 'context-zeroed', 'context-garbage', 'context-reused-after-cruise-plan', 'twin-fresh-context',
+    require=['bell-requests-with-the-velocity-limit-switched-off', 'round-number-requests', 'context-zeroed', 'context-garbage', 'context-reused-after-cruise-plan', 'twin-fresh-context',
              # second request on a used context, arguments read back from the fields the first plan recorded (judged against ITS limits) + twin
              'replan-with-limits-read-back-from-context', 'replan-readback-twin-fresh-context', 'replan.trap.judged', 'replan.bell.judged',
              'replan.judged.exact', 'replan.judged.first-plan-reached-differs-from-asked', 'replan.first.bell.cruise-braking-harder-than-run-up',
